@@ -1338,6 +1338,11 @@ def dce(prog):
           read.add(ins['var'][1] + f'[{i}]')
     for ins in prog.ins:
       if ins['op'] == 'set' and ins['dst'][0] == 'l' and ins['dst'][1] not in read and not ins['dst'][1].startswith('$'):
+        e = ins.get('e')
+        if isinstance(e, tuple) and e and e[0] in ('g', 'qempty', 'locked'):
+          # a read of shared state stays even when only a dropped logging call used its value: the real code performs it, and
+          # if it is unprotected it is a pre-emption point that the replay will see (same source line as later reads)
+          continue
         ins.clear()
         ins.update(op='nop', line=0)
         changed = True
